@@ -33,6 +33,11 @@ func EncodeRawXMLElement(v interface{}) (*RawXMLValue, error) {
 
 // UnmarshalXML implements xml.Unmarshaler.
 func (val *RawXMLValue) UnmarshalXML(d *xml.Decoder, start xml.StartElement) error {
+	// The decoder has already applied the namespace declarations to the
+	// element and attribute names. Keeping them would apply them a second
+	// time when the value is decoded, and would conflict with the
+	// declarations the encoder generates when the value is marshaled.
+	start.Attr = withoutNamespaceDecls(start.Attr)
 	val.tok = start
 	val.children = nil
 	val.out = nil
@@ -55,6 +60,17 @@ func (val *RawXMLValue) UnmarshalXML(d *xml.Decoder, start xml.StartElement) err
 			val.children = append(val.children, RawXMLValue{tok: xml.CopyToken(tok)})
 		}
 	}
+}
+
+func withoutNamespaceDecls(attrs []xml.Attr) []xml.Attr {
+	var l []xml.Attr
+	for _, attr := range attrs {
+		if attr.Name.Space == "xmlns" || (attr.Name.Space == "" && attr.Name.Local == "xmlns") {
+			continue
+		}
+		l = append(l, attr)
+	}
+	return l
 }
 
 // MarshalXML implements xml.Marshaler.
